@@ -422,7 +422,7 @@ def run(ctx: Ctx):
         ctx.cov["inventory"] = {"sites": len(inv), "by_kind": kinds, "set_uses_not_listed": x_nondet.stats()}
         table = (VERIF / "lean" / "PrimaiteModel" / "Lemmas" / "NondetDischarge.lean").read_text()
         reasons = re.findall(r"⟩, \.(\w+)\)", table)
-        by_reading = {"fixedLenSecret", "clockNotRead", "unseededByConfig", "hashNotIterated", "offline", "setMembershipOnly", "setIntHash",
+        by_reading = {"fixedLenSecret", "clockNotRead", "unseededByConfig", "hashNotIterated", "hashValueDiscarded", "offline", "setMembershipOnly", "setIntHash",
                       "setCycleCheck", "setDeclCovered", "seeding"}
         ctx.cov["discharges"] = {"total": len(reasons), "by_lemma": sum(1 for r in reasons if r not in by_reading and r != "readingLenF9"),
                                  "by_reading": sum(1 for r in reasons if r in by_reading),
